@@ -43,6 +43,17 @@ def r1_no_discarded_overread(ctx):
             ctx.ok("buffered-handle", f.where(buffered[0][1].block), "input obtained through std's process-wide buffered stdin (%s)" % buffered[0][1].callee.split("::")[-1])
         else:
             ctx.bad("no-input-source", f.where(), "read_line neither uses std's buffered stdin nor a raw read: cannot see where input comes from (%s)" % sorted({c.callee for g in fam for c in g.calls() if 'io' in (c.callee or '')}))
+    # no state of its own between calls: the only thing carried from one call to the next is std's stdin buffer.
+    # (A latch such as "input is drained" needs an argument about what an empty result means - a blank line is an
+    # empty result too - that cannot be checked here; it fails closed.)
+    from ..mir import statics_used
+    st = set()
+    for g in fam:
+        st |= statics_used(g)
+    if st and not raws:
+        ctx.bad("own-state|%s" % ",".join(sorted(st)), f.where(), "read_line consults global state of its own (%s) besides std's buffered handle: what one call records decides what later calls return (e.g. treating a blank line as end of input)" % sorted(st))
+    elif not st:
+        ctx.ok("no-own-state", f.where(), "no static is touched by read_line")
     # every use of stdin in the library goes through this one implementation (two readers would steal from each other)
     others = []
     for fn in ctx.lib.fns.values():
@@ -74,10 +85,26 @@ def r2_terminator_and_eof(ctx):
         ctx.bad("delimiter-newline", f.where(), "read_line no longer splits at the newline byte")
     # the terminator is not part of the result: either len = index of the newline, or an explicit pop/truncate/strip
     strip = any((c.callee or "").split("::")[-1] in ("pop", "truncate", "strip_suffix", "trim_end_matches", "set_len") for g in fam for c in g.calls())
+    # or: the copy stops at the newline's index and the terminator is consumed separately (fill_buf / consume idiom)
+    consume = any((c.callee or "").split("::")[-1] == "consume" for g in fam for c in g.calls()) and \
+        any((c.callee or "").endswith("memchr") for g in fam for c in g.calls())
     if strip:
         ctx.ok("terminator-stripped", f.where(), "result length excludes the terminator (pop/truncate/set_len)")
+    elif consume:
+        ctx.ok("terminator-stripped", f.where(), "bytes are copied up to the newline's index and the terminator is consumed, not copied")
     else:
         ctx.bad("terminator-stripped", f.where(), "the line terminator is not removed from the returned string")
+    # the bytes of a line are decoded as text once, after the line is complete: decoding inside the loop that fetches
+    # input splits a multi-byte character that straddles two chunks
+    for g in fam:
+        dec = [c for c in g.calls() if (c.callee or "").split("::")[-1] in ("from_utf8_lossy", "from_utf8_lossy_owned", "from_utf8", "from_utf8_unchecked") and "arena::string" in (c.callee or "") or (c.callee or "") in ("std::string::String::from_utf8_lossy", "core::str::from_utf8")]
+        fetch = [c for c in g.calls() if (c.callee or "").split("::")[-1] in ("fill_buf", "read", "read_until", "read_line") and ("io::" in (c.callee or "") or "libc" in (c.callee or ""))]
+        for d in dec:
+            in_loop = any(d.block in g.reach_from_succ(d.block) and fch.block in g.reach_from_succ(d.block) for fch in fetch)
+            if in_loop:
+                ctx.bad("decode-per-chunk", g.where(d.block), "the line's bytes are decoded as UTF-8 inside the loop that fetches input: a multi-byte character split across two chunks is turned into replacement characters")
+            else:
+                ctx.ok("decode-once#%d" % d.block, g.where(d.block), "decoded once, after the line is complete")
 
 
 RULES = [("C17-R1", r1_no_discarded_overread), ("C17-R2", r2_terminator_and_eof)]
